@@ -37,9 +37,17 @@ ThreeWay(a, b, c) == IF a = c THEN a ELSE IF a = b THEN c ELSE IF c = b THEN a E
 (* one parent: changed iff the value differs from the parent's *)
 InvSingleParent ==
   (N > 0 /\ Len(G[Last]) = 1) => ((1 \in CP(Last)) <=> (V(Last) # V(G[Last][1])))
-(* all parents agree: changed iff the value differs from theirs *)
+(* two parents that agree, with a single greatest common ancestor: changed  *)
+(* iff the value differs from theirs.  (NOT a law beyond that: with a       *)
+(* criss-cross -- two common ancestors -- or an octopus merge jj's          *)
+(* flattened recursive merge can cancel agreeing sides against the bases,   *)
+(* e.g. 1,2 add the same file, 3 = merge(1,2), 4 = merge(2,1): the merge of *)
+(* 3 and 4 is x + absent + x - x - x = absent.  TLC finds this at 5 commits *)
+(* when the restriction is dropped; it is how merge_commit_trees behaves    *)
+(* (same-change acceptance is not associative), so it is the definition.)   *)
 InvAgreeingParents ==
-  (N > 0 /\ \A i \in 1..Len(G[Last]) : V(G[Last][i]) = V(G[Last][1]))
+  (N > 0 /\ Len(G[Last]) = 2 /\ V(G[Last][1]) = V(G[Last][2])
+     /\ Cardinality(CommonAncestors(G, {G[Last][1]}, {G[Last][2]})) = 1)
      => ((1 \in CP(Last)) <=> (V(Last) # V(G[Last][1])))
 (* two parents, one an ancestor of the other: the merge is the descendant *)
 InvFastForward ==
